@@ -158,6 +158,47 @@ def demo_direct(values, from_unit, to_unit=None):
     return table[(f, t)](), t
 
 
+_IMPL_UREG = []
+
+
+class MemoAffine:
+    """a custom converter with internal state done right: remembers the coefficients of the units it has seen"""
+
+    def __init__(self):
+        self.seen = {}
+
+    def __call__(self, values, from_unit, to_unit=None):
+        import numpy as np
+        for u in (from_unit,) + (() if to_unit is None else (to_unit,)):
+            if u not in self.seen:
+                if u not in AFF:
+                    raise KeyError(u)
+                self.seen[u] = AFF[u]
+        a, b = self.seen[from_unit]
+        base = np.asarray(values, dtype=float) * a + b
+        if to_unit is None:
+            return base, "u1"
+        a2, b2 = self.seen[to_unit]
+        return (base - b2) / a2, to_unit.upper()
+
+
+def make_converter(family):
+    """ONE converter object per case: it serves the warm-up conversions, the judged conversion and its repetitions,
+    so whatever state it keeps (caches, registries) is carried from one request to the next — and a failing case is
+    reproducible from the case alone"""
+    if family == "pint":
+        import pint
+        from pdtable.units.pint import PintUnitConverter
+        if not _IMPL_UREG:
+            _IMPL_UREG.append(pint.UnitRegistry())
+        c = PintUnitConverter()
+        c.ureg = _IMPL_UREG[0]          # the registry is expensive; the converter object (and its state) is fresh
+        return c
+    if family == "memo":
+        return MemoAffine()
+    return PURE[family]
+
+
 class ConvBoom(RuntimeError):
     pass
 
@@ -165,14 +206,15 @@ class ConvBoom(RuntimeError):
 UNITS = {"affine": ["u1", "u2", "uh", "uk", "p", "q"],
          "demo": ["mm", "m", "C", "K", "g", "kg", "meter"],
          "pint": ["mm", "m", "cm", "km", "g", "kg", "degC", "kelvin", "s", "min"],
-         "ident": ["m", "mm", "anything", "-", ""], "inplace": ["m", "mm", "km"]}
+         "ident": ["m", "mm", "anything", "-", ""], "inplace": ["m", "mm", "km"],
+         "memo": ["u1", "u2", "uh", "uk", "p", "q"]}
 BAD_UNITS = {"affine": ["zz", "m"], "demo": ["furlong", "u1"], "pint": ["kg", "m", "nosuchunit"],
              "ident": ["text", "onoff", "datetime"],     # special units requested for a numeric column: relabelled
-             "inplace": ["cm"]}
-PURE = {"affine": affine, "demo": demo, "pint": pint_conv, "ident": ident, "inplace": inplace}
+             "inplace": ["cm"], "memo": ["zz", "m"]}
+PURE = {"affine": affine, "demo": demo, "pint": pint_conv, "ident": ident, "inplace": inplace, "memo": affine}
 # what the oracle calls to obtain the expected values: for the two converters that ship with pdtable, references that
 # do not go through pdtable's own modules
-REF = {"affine": affine, "demo": demo_direct, "pint": pint_direct, "ident": ident, "inplace": doubled}
+REF = {"affine": affine, "demo": demo_direct, "pint": pint_direct, "ident": ident, "inplace": doubled, "memo": affine}
 # units that differ in letter case only and are different units (milli / mega, …)
 CASE_PAIRS = [("mm", "Mm"), ("mPa", "MPa"), ("mW", "MW"), ("ms", "Ms"), ("mg", "Mg"), ("mN", "MN")]
 CASE_PARTNER = {a: b for a, b in CASE_PAIRS} | {b: a for a, b in CASE_PAIRS}
@@ -381,9 +423,18 @@ def run_impl(case):
     t = build(case["table"])
     before = snapshot(t)
     cv = case["conv"]
-    rec = None
+    rec = conv_obj = None
     if cv["kind"] != "none":
-        rec = Recorder(PURE[cv["pure"]], fail_at=cv.get("fail_at"), badlen=cv.get("badlen"))
+        conv_obj = make_converter(cv["pure"])
+        # earlier use of the same converter object (other requests on the same table, failing ones included)
+        for w in case.get("warmup", []):
+            try:
+                with warnings.catch_warnings():
+                    warnings.simplefilter("ignore")
+                    t.convert_units(build_to(w, [c["name"] for c in before["cols"]])[0], Recorder(conv_obj))
+            except Exception:
+                pass
+        rec = Recorder(conv_obj, fail_at=cv.get("fail_at"), badlen=cv.get("badlen"))
     to_obj, to_model = build_to(case["to"], [c["name"] for c in before["cols"]])
     old_default = pdtable.units.default_converter
     res = {"before": before, "to_model": to_model, "to_before": freeze_to(to_obj)}
@@ -422,7 +473,7 @@ def run_impl(case):
     # the SAME dispatcher object used again for further conversions of the same (unchanged) table: same outcome
     res["repeats"] = []
     for _ in range(case.get("repeat", 0) if rec is not None and dec is None and not cv.get("as_default") else 0):
-        rec_i = Recorder(PURE[cv["pure"]], fail_at=cv.get("fail_at"), badlen=cv.get("badlen"))
+        rec_i = Recorder(conv_obj, fail_at=cv.get("fail_at"), badlen=cv.get("badlen"))
         try:
             with warnings.catch_warnings():
                 warnings.simplefilter("ignore")
@@ -676,6 +727,8 @@ def gen_table(rng, family):
             c = {"kind": "datetime", "unit": "datetime", "values": [rng.choice(TS) for _ in range(n)]}
         if family == "pint" and kind in ("int", "float") and rng.random() < 0.35:
             c["unit"] = rng.choice(list(CASE_PARTNER))
+        if kind in ("int", "float") and rng.random() < 0.08:
+            c["unit"] = rng.choice(["gork", "nosuchunit", "Gork"])       # a source unit no converter knows
         c["name"] = nm
         cols.append(c)
     ik = rng.choice(["default", "default", "permuted", "offset", "strings", "dup", "floats"])
@@ -758,7 +811,7 @@ def gen_conv(rng, family):
 
 
 def gen_case(rng, seed, idx, tier):
-    family = rng.choice(["affine", "affine", "affine", "demo", "demo", "pint", "ident", "inplace"])
+    family = rng.choice(["affine", "affine", "memo", "demo", "demo", "pint", "pint", "ident", "inplace"])
     table = gen_table(rng, family)
     to = gen_to(rng, table, family)
     conv = gen_conv(rng, family)
@@ -768,6 +821,10 @@ def gen_case(rng, seed, idx, tier):
     case = {"seed": seed, "index": idx, "family": family, "table": table, "to": to, "conv": conv}
     if to["kind"] in ("dict", "list", "callable") and rng.random() < 0.4:
         case["repeat"] = rng.choice([1, 2])
+    if rng.random() < 0.3:
+        # the converter object has served other requests on this table before (some of them failing)
+        case["warmup"] = [gen_to(rng, table, family) for _ in range(rng.choice([1, 2]))]
+        case["repeat"] = max(case.get("repeat", 0), 1)
     return case
 
 
@@ -839,6 +896,18 @@ def fixed_cases(seed):
                {"kind": "callable", "m": [["a", "Mm"], ["c", "MW"]]}, {"kind": "tuple", "xs": ["Mm", None, None]}):
         out.append({"seed": seed, "index": -1 - len(out), "family": "pint", "table": copy.deepcopy(pt), "to": to,
                     "conv": {"kind": "pure", "pure": "pint"}, "repeat": 1})
+    # a converter object with a history: a good request, then a request that must fail (source unit nobody knows /
+    # inconvertible pair), then the very same failing request again and again — it must fail every time
+    for fam, good, bad_unit, tgt in (("pint", "mm", "gork", "m"), ("pint", "mm", "kg", "m"), ("demo", "mm", "gork", "m"),
+                                     ("memo", "u2", "gork", "u1"), ("affine", "u2", "zz", "u1")):
+        ht = {"name": "t", "dests": ["all"], "nrows": 2, "index": [5, 3], "index_kind": "permuted", "cols": [
+            {"name": "a", "kind": "float", "unit": bad_unit, "values": [1.5, 2.0]},
+            {"name": "b", "kind": "float", "unit": good, "values": [1000.0, None]}]}
+        for to in ({"kind": "dict", "m": [["a", tgt]]}, {"kind": "list", "xs": [tgt, None]},
+                   {"kind": "callable", "m": [["a", tgt]]}):
+            out.append({"seed": seed, "index": -1 - len(out), "family": fam, "table": copy.deepcopy(ht), "to": to,
+                        "conv": {"kind": "pure", "pure": fam}, "repeat": 2,
+                        "warmup": [{"kind": "dict", "m": [["b", tgt]]}]})
     # one mapping / list / callable object used for three consecutive conversions
     for to in ({"kind": "dict", "m": [["a", "u1"], ["zz", "q"], ["b", "uk"]]}, {"kind": "list", "xs": ["u1", "uk", None, None, None]},
                {"kind": "callable", "m": [["b", "uk"]]}, {"kind": "dict", "m": []}):
@@ -896,7 +965,9 @@ def run(tier, seed, model_ok, translator, search=False):
                 "wrong length, installed as default converter, passed explicitly while a DIFFERENT converter is the "
                 "module default, or absent); a converter computing in place on the buffer it is handed; long tables on a "
                 "size ladder (rows at and around 64 … 1024, 4096, 8192, 12288, 20001; every row compared by position); "
-                "pint units differing in letter case only; the caller's dispatcher object compared with its snapshot "
+                "ONE converter object per case serving warm-up "
+                "requests, the judged request and its repetitions (failing requests included: unknown source units, "
+                "inconvertible pairs), a stateful custom converter; pint units differing in letter case only; the caller's dispatcher object compared with its snapshot "
                 "and reused for up to three consecutive conversions; after every returned table the result and then the original are edited "
                 "in place (destinations, name, a unit, a cell) and the other one is compared with its snapshot. Non-trivial: the converter was called or a "
                 "special column was refused.")
